@@ -6,14 +6,15 @@
   * `bfsPure_spec`: with fuel `n + 1`, from a non-null start `d < n`, images `< n`, inert null dart,
                     the result starts with `d`, has no duplicates, omits 0, contains exactly the
                     reachable non-null darts, all `< n`
-  * `run_bfs_eq`  : the monadic `bfs gen` computes `bfsPure g` and leaves the map unchanged whenever
-                    `gen x` returns `g x` on every dart `x < n`
+  * `run_bfs_inv`, `run_orbitWith` : the monadic `bfs gen` computes `bfsPure g` and leaves the map
+                    unchanged whenever `gen x` returns `g x` on every dart `x < n`
   * symmetric generators (`InvClosed`): reachability between non-null darts is an equivalence and
     coincides with the equivalence closure `SameCell` of the generator steps
   * one-directional generators on closed cells (`linear_reach_iff`)
   * `listMin` is the minimum
 
-  Core Lean only.
+  Core Lean only.  All names are top-level in `HC` (agentgrid's independent development for C12 lives in
+  `HC.GridBfs`, Lemmas/GridBfs.lean).
 -/
 import Honeycomb.Lemmas.Run
 
